@@ -262,6 +262,9 @@ impl Case for SqCase {
         let w_kernel = if pending > 0 { 3 } else { 1 };
         let w_again = if finished.is_empty() { 0 } else { 2 };
         let w_bad = if rng.chance(1, 40) { 1 } else { 0 };
+        if rng.chance(if pending > 0 { 1 } else { 0 }, 6) || rng.chance(1, 40) {
+            return Some("sq enter".into());
+        }
         match rng.weighted(&[w_step, w_kernel, w_again, w_bad]) {
             0 => {
                 // bias towards keeping several threads inside the window between the
@@ -323,6 +326,65 @@ impl Case for SqCase {
                 self.check_prefix();
                 vec![format!("{l} {}", self.state_line())]
             }
+            ["sq", "enter"] => {
+                // `Ring::poll` on the controller thread: Shared::enter passes
+                // `unsubmitted_submissions()` to io_uring_enter, the simulated kernel
+                // consumes exactly that many entries. All submitters are parked.
+                let n0 = simk::with_sim(|s| s.events.len());
+                let r = util::catch(|| self.ring.as_mut().unwrap().poll(Some(std::time::Duration::ZERO)));
+                if r.is_err() {
+                    self.oracle.push(("C04".into(), "C04/panic".into(), "Ring::poll panicked".into()));
+                }
+                let (to_submit, got): (Option<u32>, Vec<Option<i32>>) = simk::with_sim(|s| {
+                    let mut ts = None;
+                    let mut got = Vec::new();
+                    for e in &s.events[n0.min(s.events.len())..] {
+                        match e {
+                            KEv::Enter { to_submit, .. } => {
+                                if ts.is_none() {
+                                    ts = Some(*to_submit);
+                                }
+                            }
+                            KEv::TornEntry { .. } => got.push(None),
+                            KEv::Consumed { sqe, .. } => got.push(Some(sqe.fd)),
+                            _ => {}
+                        }
+                    }
+                    (ts, got)
+                });
+                let mut names = Vec::new();
+                for g in got {
+                    match g.and_then(|f| self.fd2entry.get(&f).copied()) {
+                        Some(e) => {
+                            if self.consumed.contains(&e) {
+                                self.oracle.push(("C04".into(), "C04/consumed-twice".into(), format!("entry {e} reached the kernel twice")));
+                            }
+                            self.consumed.push(e);
+                            self.feats.push("enter-consumes".into());
+                            names.push(e.to_string());
+                        }
+                        None if g.is_none() => {
+                            self.oracle.push(("C04".into(), "C04/torn-entry".into(), "the kernel consumed a reset (partially written) submission".into()));
+                            names.push("torn".into());
+                        }
+                        None => {
+                            self.oracle.push(("C04".into(), "C04/unknown-entry".into(), "the kernel consumed an entry nobody submitted (overwritten or corrupted slot)".into()));
+                            names.push("?".into());
+                        }
+                    }
+                }
+                self.check_prefix();
+                // Oracle: everything published before the call has now reached the kernel.
+                let (h, tl) = simk::with_ring(self.rfd, |r, _| (r.sq_head(), r.sq_tail()));
+                if tl != h {
+                    self.oracle.push(("C04".into(), "C04/accepted-not-submitted".into(), format!("after Ring::poll entered the kernel with to_submit={} the queue still holds {} published entries (head {h}, tail {tl}): accepted submissions do not reach the kernel", to_submit.map(|n| n.to_string()).unwrap_or("?".into()), tl.wrapping_sub(h))));
+                }
+                if tl < h || (tl == h && h < 8) {
+                    self.feats.push("enter-after-wrap".into());
+                }
+                let ts = to_submit.map(|n| n.to_string()).unwrap_or("none".into());
+                vec![format!("enter {ts} consumed {} {}", if names.is_empty() { "-".to_string() } else { names.join(",") }, self.state_line())]
+            }
             ["sq", "again", i, e] => {
                 let (Ok(i), Ok(e)) = (i.parse::<usize>(), e.parse::<u64>()) else { return vec!["bad-op".into()] };
                 if i >= self.workers.len() || self.workers[i].done.is_none() || self.workers[i].done.as_deref() == Some("panic") {
@@ -375,7 +437,10 @@ impl Case for SqCase {
                 break;
             }
         }
-        sched::finish_all();
+        let stuck = sched::finish_all();
+        if !stuck.is_empty() {
+            self.oracle.push(("C04".into(), "C04/add-never-returns".into(), format!("{} submitter(s) did not return from Submissions::add within 100000 scheduling steps although the kernel consumed every entry", stuck.len())));
+        }
         sched::uninstall();
         // Exactly once: every accepted entry was consumed exactly once, every
         // refused one never, and its descriptor was closed synchronously.
